@@ -1,6 +1,8 @@
 SPECIFICATION Spec
-INVARIANT Linearized
+CONSTANTS
+  MaxSize = 4
 INVARIANT SameEvents
-INVARIANT LabelsAreConsecutive
 INVARIANT AllTargetsExist
 INVARIANT StackBounded
+INVARIANT FinalWellFormed
+INVARIANT NoopOnlyTrailing
